@@ -196,3 +196,31 @@ def _(run):
         run.vc('shared-containers-mutated-only-on-fresh-copies', pre, [], z3.BoolVal(not extra), f'{fname}:{qual}' + (' extra=' + ';'.join(sorted(extra)) if extra else ''))
     run.paths = n
     if n < 40: raise Exception(f'only {n} validation-path methods found: the scan is broken')
+
+
+# ------------------------------------------------------------------ every reported error carries the mode of the CALL (C04, C11, C19)
+ERR_CALLS = ('validation_error', 'decode_error', 'encode_error', 'raise_or_collect', 'missing_element_error')
+t = Target('frame.errors_are_reported_with_the_mode_of_the_call', ['C04', 'C11', 'C19'], 'xmlschema/validators/validation.py', 'ValidationContext.raise_or_collect',
+           note='whether an error is raised, collected or dropped is decided by the validation mode of the current call: in every function of validators/*.py and converters/*.py each '
+                'call of validation_error / decode_error / encode_error / raise_or_collect / missing_element_error passes, as the mode, the `validation` parameter of the enclosing '
+                'function (not the mode the schema was built with, not another variable): lax and skip never raise for invalid content, strict always does',
+           assumes=['syntactic obligation on the real AST (no solver); what raise_or_collect does with the mode is its own contract (validation.raise_or_collect)'])
+
+
+@t.symbolic
+def _(run):
+    run.exec()
+    pre = z3.BoolVal(True); n = 0
+    files = sorted(glob.glob(os.path.join(REPO, 'xmlschema/validators/*.py'))) + sorted(glob.glob(os.path.join(REPO, 'xmlschema/converters/*.py'))) + [os.path.join(REPO, 'xmlschema/dataobjects.py')]
+    for f in files:
+        tree = ast.parse(open(f, encoding='utf-8-sig').read())
+        for fn in [x for x in ast.walk(tree) if isinstance(x, (ast.FunctionDef, ast.AsyncFunctionDef))]:
+            params = {a.arg for a in fn.args.args + fn.args.kwonlyargs}
+            for c in [x for x in ast.walk(fn) if isinstance(x, ast.Call) and isinstance(x.func, ast.Attribute) and x.func.attr in ERR_CALLS]:
+                if os.path.basename(f) == 'validation.py' and fn.name in ERR_CALLS: continue       # the reporting methods themselves forward their own parameter
+                n += 1
+                mode = c.args[0] if c.args else next((k.value for k in c.keywords if k.arg == 'validation'), None)
+                ok = isinstance(mode, ast.Name) and mode.id == 'validation' and 'validation' in params
+                run.vc('mode-argument-is-the-validation-parameter', pre, [], z3.BoolVal(ok), f'{os.path.basename(f)}:{fn.name}:{c.func.attr}@{c.lineno - fn.lineno}' + ('' if ok else ' mode=' + (ast.unparse(mode) if mode is not None else 'missing')))
+    run.paths = n
+    if n < 60: raise Exception(f'only {n} error-reporting calls found: the scan is broken')
